@@ -144,6 +144,13 @@ def apply_fault(recs, fault):
         lost = set(atoms[fault[1]:fault[2]])
     elif kind == 'F7':          # only a window of whole residues survives
         lost = set(atoms[:fault[1]]) | set(atoms[fault[2]:])
+    elif kind == 'F8':          # periodic loss: every p-th block of b records (phase q)
+        _, b, per, q = fault
+        lost = set(a for n, a in enumerate(atoms) if (n // b) % per == q)
+    elif kind == 'F9':          # independent loss of each record with rate p (seeded)
+        import random as _r
+        rr = _r.Random(fault[2])
+        lost = set(a for a in atoms if rr.random() < fault[1])
     elif kind == 'F0':
         lost = set()
     else:
@@ -187,6 +194,13 @@ def enumerate_faults(natoms, tier, rng, bounds=None):
         else:
             out += rng.sample(runs, min(len(runs), tier['f6']))
             out += rng.sample(wins, min(len(wins), tier['f6']))
+    for b in (1, 2, 4, 8):
+        for per in (2, 3, 5):
+            for q in range(per):
+                if natoms > b * per:
+                    out.append(('F8', b, per, q))
+    for _ in range(tier.get('f9', 0)):
+        out.append(('F9', rng.choice((0.02, 0.05, 0.1, 0.3, 0.6, 0.9)), rng.randrange(1 << 30)))
     for k in range(natoms):
         out.append(('F1', k))
     for k in range(natoms):
